@@ -392,36 +392,56 @@ def confirm(v, P):
         return not py_div_check(x, s0, den, 0, ri, rs, P), out
     ov = t['ov']
     lk, rk = C.kind_of(ov['lhs']), C.kind_of(ov['rhs'])
-    x, s0 = mdl['x'], mdl['s0']
-    sa = s0 + t['ga'] if lk == 'dec' else 0
-    sb = s0 + t['gb'] if rk == 'dec' else 0
-    if rk != 'dec':
-        sa, sb = s0 + t['ga'], 0
-    elif lk != 'dec':
-        sa, sb = 0, s0 + t['gb']
-    if lk == 'dec':
-        l, r = operand_str(ov['lhs'], x, sa), operand_str(ov['rhs'], t['dval'], sb)
-        num, den = Fraction(x) * Fraction(10) ** (-sa), Fraction(float_val(rk[6:], t['dval']) if rk.startswith('float:') else t['dval']) * Fraction(10) ** (-sb if rk == 'dec' else 0)
-    else:
-        l, r = operand_str(ov['lhs'], t['dval'], sa), operand_str(ov['rhs'], x, sb)
-        num, den = Fraction(float_val(lk[6:], t['dval']) if lk.startswith('float:') else t['dval']), Fraction(x) * Fraction(10) ** (-sb)
-    line = '\t'.join(['binop', ov['trait'], C.norm_ty(ov['lhs']), C.norm_ty(ov['rhs']), l, r])
+
+    def setup(x, s0):
+        sa = s0 + t['ga'] if lk == 'dec' else 0
+        sb = s0 + t['gb'] if rk == 'dec' else 0
+        if rk != 'dec':
+            sa, sb = s0 + t['ga'], 0
+        elif lk != 'dec':
+            sa, sb = 0, s0 + t['gb']
+        if lk == 'dec':
+            l, r = operand_str(ov['lhs'], x, sa), operand_str(ov['rhs'], t['dval'], sb)
+            num, den = Fraction(x) * Fraction(10) ** (-sa), Fraction(float_val(rk[6:], t['dval']) if rk.startswith('float:') else t['dval']) * Fraction(10) ** (-sb if rk == 'dec' else 0)
+        else:
+            l, r = operand_str(ov['lhs'], t['dval'], sa), operand_str(ov['rhs'], x, sb)
+            num, den = Fraction(float_val(lk[6:], t['dval']) if lk.startswith('float:') else t['dval']), Fraction(x) * Fraction(10) ** (-sb)
+        return '\t'.join(['binop', ov['trait'], C.norm_ty(ov['lhs']), C.norm_ty(ov['rhs']), l, r]), num, den
+
+    def judge(out, num, den):
+        if t['mode'] == 'zero':
+            return not out.startswith('PANIC')
+        if out.startswith('PANIC') or out.startswith('UNKNOWN'):
+            return out.startswith('PANIC')
+        ri, rs = H.parse_dec(out)
+        if den == 0:
+            return True
+        q = num / den
+        rr = Fraction(ri) * Fraction(10) ** (-rs)
+        if rr == q:
+            return False
+        if len(str(abs(ri))) < P:
+            return True
+        ulp = Fraction(10) ** (-rs)
+        return not (abs(rr - q) <= ulp / 2)
+
+    line, num, den = setup(mdl['x'], mdl['s0'])
     out = H.replay_lines([line])[0]
-    if t['mode'] == 'zero':
-        return not out.startswith('PANIC'), out
-    if out.startswith('PANIC') or out.startswith('UNKNOWN'):
-        return out.startswith('PANIC'), out
-    ri, rs = H.parse_dec(out)
-    if den == 0:
-        return True, out
-    q = num / den
-    rr = Fraction(ri) * Fraction(10) ** (-rs)
-    if rr == q:
-        return False, out
-    if len(str(abs(ri))) < P:
-        return True, out
-    ulp = Fraction(10) ** (-rs)
-    return not (abs(rr - q) <= ulp / 2), out
+    bad = judge(out, num, den)
+    if bad or not v.get('detail', '').startswith('inverse()'):
+        return bad, out
+    # Routing violation (the quotient was obtained through inverse(), which is only licensed for numerator one): the model's
+    # divisor need not be one on which the reciprocal routine misrounds.  Search natively over small divisors of the same
+    # overload and operand shape; the reported witness is the native one.
+    xs = [d for d in range(2, 1500)]
+    cases = [setup(xx, mdl['s0']) for xx in xs]
+    outs = H.replay_lines([cc[0] for cc in cases])
+    for xx, (ln, nn, dd), oo in zip(xs, cases, outs):
+        if judge(oo, nn, dd):
+            mdl['x_from_solver'] = mdl['x']
+            mdl['x'] = xx
+            return True, oo + ' [divisor %d found natively among 2..1499 for this overload]' % xx
+    return False, out
 
 
 def validate(prog, rng, n, P, rep=None):
